@@ -32,8 +32,7 @@ class SystemAction():
     @classmethod
     def remove(cls, action):
         '''Remove a function from the evaluation queue.'''
-        if action in cls._actions:
-            del cls._actions[action]
+        cls._actions.pop(action, None)
 
     @classmethod
     def remove_all(cls):
@@ -48,8 +47,9 @@ class SystemAction():
 
     @classmethod
     def _do_action(cls, action):
-        if action in cls._actions:  # May be removed by a previous action.
-            args, kwargs = cls._actions[action]
+        entry = cls._actions.get(action)
+        if entry is not None:  # May be removed by a previous action.
+            args, kwargs = entry
             action(*args, **kwargs)
 
 
